@@ -42,6 +42,7 @@ func (c *Ctx) methodsNamed(names []string, pkgPrefixes ...string) []*ssa.Functio
 var _ = types.Typ
 
 func propC08(c *Ctx) propInfo {
+	c.statelessCodecs("E17.stateless", excStateless, "tlb", "tl", "boc")
 	roots := c.rootsByName("E1.roots",
 		"tlb:Unmarshal", "tlb:Decoder.Unmarshal", "tl:Unmarshal",
 		"liteclient:LiteapiRequestDecoder", "liteclient:ParsePacket", "liteclient:Client.processQueryAnswer", "liteclient:decodeLength",
